@@ -65,4 +65,9 @@ CLAIMED = {
   text="All single-point corruptions of the seed ranges are executed and every one the reference classifier puts in the must-error set must return (false, error); for routing, every comparator x bound x probe over 48 spellings must match the scheme's ecosystem and the run itself proves that each other ecosystem is distinguishable by at least one enumerated pair.",
   note="Version validity inside the classifier is the scheme's ecosystem parser (as C17 states). The lone '*' is not covered.",
   ref="DESIGN.md 4 (C17), Appendix A.9"),
+ "C07": dict(
+  technique="bounded-exhaustive enumeration of every list (every permutation of every multiset) of length 1..5/6 over small derived universes per ecosystem, sorted through the real CLI (overlay-built in-process server around run()) and through the README slices.SortFunc idiom; multiset, adjacency and permutation-invariance oracles",
+  text="Every list up to the length bound over each universe is sorted by the real code paths; output must be a permutation of the input, adjacent pairs non-decreasing under the real Compare, and the class sequence identical for all orderings of the same multiset; invalid arguments must give exit 1 and a diagnostic naming them.",
+  note="Universes are derived from C01's universe and exclude elements of C01's known-intransitive classes; lengths 13/33/64 are covered by deterministic families, not all permutations. The CLI is driven through an overlay-injected stdin/stdout server calling the repository's own run().",
+  ref="DESIGN.md 4 (C07)"),
 }
